@@ -54,6 +54,35 @@ GALLERY_B = {
 }
 KINDS = list(GALLERY_A)
 
+# pairs in *boundary* relations, where the predicates disagree with one another (contains vs covers, within vs
+# covered-by, touches vs intersects, crosses vs overlaps) and set operations return lower-dimensional pieces: any
+# shortcut that answers one predicate with another's rule (bounding boxes, "covers" semantics) shows up here
+_R = [[0, 0], [4, 0], [4, 3], [0, 3], [0, 0]]
+RELATION_PAIRS = [
+    ("rect/pt_on_edge", ("Polygon", [_R]), ("Point", [2, 0])),
+    ("rect/pt_on_corner", ("Polygon", [_R]), ("Point", [4, 3])),
+    ("rect/line_along_edge", ("Polygon", [_R]), ("LineString", [[1, 3], [3, 3]])),
+    ("rect/own_ring", ("Polygon", [_R]), ("LinearRing", _R)),
+    ("rect/corner_multipoint", ("Polygon", [_R]), ("MultiPoint", [[0, 0], [4, 0], [4, 3]])),
+    ("rect/pt_inside_and_on_edge", ("Polygon", [_R]), ("MultiPoint", [[2, 1], [4, 1]])),
+    ("rect/line_inside_touching_edge", ("Polygon", [_R]), ("LineString", [[2, 1], [2, 3]])),
+    ("rect/rect_sharing_edge", ("Polygon", [_R]), ("Polygon", [[[4, 0], [6, 0], [6, 3], [4, 3], [4, 0]]])),
+    ("rect/rect_sharing_corner", ("Polygon", [_R]), ("Polygon", [[[4, 3], [6, 3], [6, 5], [4, 5], [4, 3]]])),
+    ("rect/inner_rect_on_edge", ("Polygon", [_R]), ("Polygon", [[[0, 0], [2, 0], [2, 3], [0, 3], [0, 0]]])),
+    ("rect/equal_rect_other_start", ("Polygon", [_R]), ("Polygon", [[[4, 0], [4, 3], [0, 3], [0, 0], [4, 0]]])),
+    ("rect/line_crossing", ("Polygon", [_R]), ("LineString", [[-1, 1], [5, 2]])),
+    ("tri/pt_on_hypotenuse", ("Polygon", [[[0, 0], [4, 0], [0, 4], [0, 0]]]), ("Point", [2, 2])),
+    ("tri/pt_in_bbox_outside", ("Polygon", [[[0, 0], [4, 0], [0, 4], [0, 0]]]), ("Point", [3, 3])),
+    ("hole/pt_in_hole", GALLERY_A["polygon_hole"], ("Point", [1.5, 1.5])),
+    ("hole/pt_on_hole_edge", GALLERY_A["polygon_hole"], ("Point", [1, 1.5])),
+    ("line/own_endpoint", ("LineString", [[0, 0], [2, 2]]), ("Point", [2, 2])),
+    ("line/own_midpoint", ("LineString", [[0, 0], [2, 2]]), ("Point", [1, 1])),
+    ("line/line_overlapping", ("LineString", [[0, 0], [4, 0]]), ("LineString", [[2, 0], [6, 0]])),
+    ("line/line_crossing", ("LineString", [[0, 0], [4, 4]]), ("LineString", [[0, 4], [4, 0]])),
+    ("line/line_touching_end", ("LineString", [[0, 0], [2, 2]]), ("LineString", [[2, 2], [4, 0]])),
+    ("mpoly/pt_on_part_edge", GALLERY_A["multipolygon"], ("Point", [1, 0.5])),
+]
+
 
 def mk_shape(spec):
     from shapely import geometry as G
@@ -235,6 +264,21 @@ def e_binary(tier):
         for tp in pairs:
             for ka, kb in kind_pairs:
                 yield {"op": op, "tags": tp, "kinds": [ka, kb], "shapes": [list(GALLERY_A[ka]), list(GALLERY_B[kb])]}
+
+
+def e_relations(tier):
+    """Every binary operation, both operand orders, on pairs in boundary relations (RELATION_PAIRS); tags: every
+    same-label pair of _tag_pairs (the result clause) plus a few mismatching ones (the rejection clause)."""
+    ops = sorted(set(KNOWN_BINARY) | set(_binary_methods())) + ["fn_intersects"]
+    pairs = [tp for tp in _tag_pairs() if _labels_equal(tp)]
+    pairs += [tp for tp in _tag_pairs() if not _labels_equal(tp)][:: 7 if tier == "quick" else 1]
+    if tier == "quick":
+        pairs = pairs[::3] + pairs[1:2]
+    for op in ops:
+        for tp in pairs:
+            for name, a, b in RELATION_PAIRS:
+                for x, y in ((a, b), (b, a)):
+                    yield {"op": op, "tags": tp, "kinds": [name, "fwd" if x is a else "rev"], "shapes": [list(x), list(y)]}
 
 
 def e_nary(tier):
@@ -428,6 +472,7 @@ def build(chk: Check) -> None:
     chk.sub("introspection", o_introspect, enum=lambda tier: [{}], exhaustive_tiers=("quick", "thorough"))
     chk.sub("binary_enum", o_geom, enum=e_binary, exhaustive_tiers=("thorough",), budget_s={"quick": 80, "thorough": 900})
     chk.sub("nary_enum", o_geom, enum=e_nary, exhaustive_tiers=("quick", "thorough"), budget_s={"quick": 80, "thorough": 900})
+    chk.sub("relations_enum", o_geom, enum=e_relations, exhaustive_tiers=("quick", "thorough"))
     chk.sub("generated", o_geom, cov={"quick": 1500, "thorough": 120000}, strategy=s_generated(), n={"quick": 3000, "thorough": 200000})
     chk.sub("bbox_enum", o_bbox, enum=e_bbox, exhaustive_tiers=("quick", "thorough"))
     chk.sub("gbox_enum", o_gbox, enum=e_gbox, exhaustive_tiers=("quick", "thorough"))
